@@ -36,6 +36,19 @@ def mc(ctx, scripts, name, guards, expect="ok", simulate=None, liveness=True, ti
                    workers=8, timeout=timeout, **kw)
 
 
+def scheduler_stage(ctx):
+    """The caller contract is part of the property: a worker that claims a re-offered predecessor and finds it past
+    execution must release its dependents (execution_task's status dispatch -> remove(d, false)). Scheduler runs on
+    conflict-heavy blocks with 3 workers, validated against Grevm.tla (W_ExecTask logs the status found; the
+    specification then demands the D_Remove step); a stranded transaction is a deadlock verdict."""
+    import sched_engine as se
+    names = ["rmw4", "rmw3", "dd3", "grow_shrink3"]
+    for workers in (3, 2):
+        r, out, args = se.controlled(ctx, names, ctx.n(80, 3000), workers=workers, tag=f"sched_w{workers}")
+        se.report(ctx, r, args, "C16", also=("C05",))
+        se.validate(ctx, r, out, f"sched_trace_w{workers}", workers=workers)
+
+
 def run(ctx):
     scripts = json.load(open(os.path.join(SPEC, "txdep_scripts.json")))
     by = {s["name"]: s for s in scripts}
@@ -110,6 +123,7 @@ def run(ctx):
                 smp["events"] = smp["events"][:60]
                 ctx.samples.append(smp)
     ctx.notes["probe_jobs"] = jobs
+    scheduler_stage(ctx)
     consts = dict(GUARDS, Scripts="{}")
     for name, path, r in (("trace_dfs", out, r1), ("trace_pct", out2, r2)):
         if not r["trace_runs"]:
